@@ -157,3 +157,31 @@ def obligation(oid: str, pre: str, suf: str, k: int, mode: str, timeout: float, 
     params = {"prefix": pre, "suffix": suf, "k": k, "mode": mode}
     params.update(extra)
     return {"id": oid, "module": "vtools.holes", "func": "h_hole", "params": params, "timeout": timeout, "allow_vacuous": mode in ("accept", "reject", "roundtrip") or "alphabet" in extra}
+
+
+def c_sweep(mode: str, depth: int = 2, chunk: int = 0, nchunks: int = 1):
+    """Supplementary *finite enumeration*: every query of the derivation corpus (vtools.derive) through the concrete
+    differential / round-trip / totality check (k = 0 hole).  Not a symbolic obligation; labelled as enumeration in evidence."""
+    from vtools import derive, inst
+
+    qs = derive.corpus(depth)[chunk::nchunks]
+    saved = dict(inst.P)
+    n = 0
+    try:
+        for q in qs:
+            inst.P.clear()
+            inst.P.update({"prefix": q, "suffix": "", "k": 0, "mode": mode})
+            try:
+                r = h_hole()
+            except inst.PreconditionNotMet:
+                r = True
+            except Exception as e:  # noqa: BLE001
+                r = "exception %s: %s" % (type(e).__name__, str(e)[:200])
+            n += 1
+            if r is not True:
+                return {"status": "refuted", "failure": "derivation %r: %s" % (q, r), "replay_module": "vtools.holes", "replay_func": "h_hole", "replay_args": {},
+                        "replay_params": {"prefix": q, "suffix": "", "k": 0, "mode": mode}, "paths": n}
+    finally:
+        inst.P.clear()
+        inst.P.update(saved)
+    return {"status": "confirmed", "paths": n, "confirmed_paths": n, "queries": [{"claim": "%d derivations of the ABNF (depth %d) %s" % (n, depth, mode), "result": "finite enumeration, all agree"}]}
